@@ -12,9 +12,8 @@ RULE = ("type-directed data values (integers incl. the i64 extremes, floats in p
         "through the public object API and compared with the model's reading; every float literal is checked against "
         "Python's correctly rounded conversion of the same decimal; the value is printed (to_string), the printed text "
         "is read back and must have the same canonical structure; non-trivial = distinct values that are not atoms")
-ASSUMPTIONS = ["floats are compared by bit pattern; Rust's shortest round-trip float formatting is runtime-library behaviour: "
-               "the model prints only floats with a short exact decimal expansion and SKIPs the others (they are still "
-               "round-tripped through the real reader by the harness)",
+ASSUMPTIONS = ["floats are compared by bit pattern; their printed form (Rust's `{}` shortest round-trip digits, `{:.1}` for integral "
+               "values) is computed exactly by the model (Model/Num.lean f64ShortestAbs, f64ExactInt) and compared as text",
                "defun / defmacro headed lists are not generated as data (they would be evaluated while reading: known finding)"]
 
 def gen_int(rng):
